@@ -61,8 +61,9 @@ package runtime
 //@ ensures[witness] result1 == nil ==> result0 == ((ic.VM.calling != util.Uint160{} && hash == ic.VM.calling) || exists(i, 0, len(interop.signersOf(ic)), interop.signersOf(ic)[i].Account == hash && forall(j, 0, i, interop.signersOf(ic)[j].Account != hash) && allowed(interop.signersOf(ic)[i], ic)))
 
 // C16: System.Runtime.LoadScript hands the loaded script no flag its own context lacks and
-// nothing beyond read-only access.
-//@ prop C16
+// nothing beyond read-only access. (C04 relies on it: a dynamically loaded script gets no DAO
+// layer of its own because it cannot write.)
+//@ prop C04,C16
 //@ func LoadScript
 //@ may-panic
 //@ opt frame off
